@@ -316,7 +316,7 @@ func (ev *byteEval) value(v ssa.Value, ctx phiCtx, depth int) (int64, bool) {
 		return 0, false
 	case *ssa.Lookup:
 		if !x.CommaOk {
-			if val, _, ok := ev.tableLookup(x, ctx, depth); ok {
+			if val, _, ok := ev.tableLookup(x, ctx, depth); ok && val != valueUnknown {
 				return val, true
 			}
 		}
@@ -325,7 +325,7 @@ func (ev *byteEval) value(v ssa.Value, ctx phiCtx, depth int) (int64, bool) {
 		if lk, ok := x.Tuple.(*ssa.Lookup); ok && lk.CommaOk {
 			if val, present, ok := ev.tableLookup(lk, ctx, depth); ok {
 				if x.Index == 0 {
-					return val, true
+					return val, val != valueUnknown
 				}
 				return present, true
 			}
@@ -485,6 +485,11 @@ func evalAt(fn *ssa.Function, leaf func(ssa.Value) (int64, bool), at ssa.Instruc
 type mapLiteral struct {
 	strKeys map[string]int64
 	intKeys map[int64]int64
+	// entries whose value is not a bool/int constant (function values, structs, …): the key is present, the value is
+	// known only as an SSA value
+	strVals map[string]ssa.Value
+	intVals map[int64]ssa.Value
+	basic   bool // every value is a bool/int constant: a missing key reads as 0
 }
 
 var mapLitCache sync.Map
@@ -542,7 +547,7 @@ func globalMapLiteral(g *ssa.Global) *mapLiteral {
 	if written {
 		return nil
 	}
-	ml := &mapLiteral{strKeys: map[string]int64{}, intKeys: map[int64]int64{}}
+	ml := &mapLiteral{strKeys: map[string]int64{}, intKeys: map[int64]int64{}, strVals: map[string]ssa.Value{}, intVals: map[int64]ssa.Value{}, basic: true}
 	okAll := true
 	Instrs(init, false, func(in ssa.Instruction) {
 		mu, ok := in.(*ssa.MapUpdate)
@@ -550,11 +555,12 @@ func globalMapLiteral(g *ssa.Global) *mapLiteral {
 			return
 		}
 		var val int64
+		opaque := false
 		switch v := mu.Value.(type) {
 		case *ssa.Const:
 			if v.Value == nil {
-				okAll = false
-				return
+				opaque = true
+				break
 			}
 			switch v.Value.Kind() {
 			case constant.Bool:
@@ -564,17 +570,24 @@ func globalMapLiteral(g *ssa.Global) *mapLiteral {
 			case constant.Int:
 				val, _ = constant.Int64Val(v.Value)
 			default:
-				okAll = false
-				return
+				opaque = true
 			}
 		default:
-			okAll = false
-			return
+			opaque = true
+		}
+		if opaque {
+			ml.basic = false
 		}
 		if ks, ok := ConstString(mu.Key); ok {
-			ml.strKeys[ks] = val
+			ml.strVals[ks] = mu.Value
+			if !opaque {
+				ml.strKeys[ks] = val
+			}
 		} else if ki, ok := ConstInt(mu.Key); ok {
-			ml.intKeys[ki] = val
+			ml.intVals[ki] = mu.Value
+			if !opaque {
+				ml.intKeys[ki] = val
+			}
 		} else {
 			okAll = false
 		}
@@ -615,12 +628,37 @@ func (ev *byteEval) tableLookup(x *ssa.Lookup, ctx phiCtx, depth int) (val, pres
 		if v, in := ml.strKeys[s]; in {
 			return v, 1, true
 		}
+		if _, in := ml.strVals[s]; in {
+			return valueUnknown, 1, true
+		}
+		if !ml.basic {
+			return valueUnknown, 0, true
+		}
 		return 0, 0, true
 	}
 	if v, in := ml.intKeys[k]; in {
 		return v, 1, true
 	}
+	if _, in := ml.intVals[k]; in {
+		return valueUnknown, 1, true
+	}
+	if !ml.basic {
+		return valueUnknown, 0, true
+	}
 	return 0, 0, true
+}
+
+// valueUnknown marks the value half of a table lookup whose entry is not a bool/int constant.
+const valueUnknown = int64(-1 << 62)
+
+// GlobalMapEntries returns the entries of a package-level map literal that nothing but the package initialiser writes:
+// constant key -> the SSA value stored for it.
+func GlobalMapEntries(g *ssa.Global) (strs map[string]ssa.Value, ints map[int64]ssa.Value, ok bool) {
+	ml := globalMapLiteral(g)
+	if ml == nil {
+		return nil, nil, false
+	}
+	return ml.strVals, ml.intVals, true
 }
 
 // Str returns the string an id stands for.
@@ -631,4 +669,89 @@ func (si *StrIntern) Str(id int64) (string, bool) {
 		}
 	}
 	return "", false
+}
+
+// GlobalLiteralStrings returns the string constants of the composite literal a package-level variable is initialised
+// with (a slice/array/struct literal, nested), when nothing but the package initialiser writes the variable or stores
+// through it. ok is false for any other variable.
+func GlobalLiteralStrings(g *ssa.Global) (out []string, ok bool) {
+	if g.Pkg == nil {
+		return nil, false
+	}
+	init := g.Pkg.Func("init")
+	if init == nil {
+		return nil, false
+	}
+	written := false
+	for fn := range ssautil.AllFunctions(g.Pkg.Prog) {
+		if fn.Pkg != g.Pkg || fn == init || written {
+			continue
+		}
+		Instrs(fn, false, func(in ssa.Instruction) {
+			st, isSt := in.(*ssa.Store)
+			if !isSt {
+				return
+			}
+			// a store to the variable or through an address derived from it
+			for a := st.Addr; a != nil; {
+				switch x := a.(type) {
+				case *ssa.Global:
+					if x == g {
+						written = true
+					}
+					a = nil
+				case *ssa.FieldAddr:
+					a = x.X
+				case *ssa.IndexAddr:
+					a = x.X
+				case *ssa.UnOp:
+					a = x.X
+				default:
+					a = nil
+				}
+			}
+		})
+	}
+	if written {
+		return nil, false
+	}
+	// roots: the variable itself and every allocation whose address (or a slice of it) is stored into it
+	roots := map[ssa.Value]bool{g: true}
+	for changed := true; changed; {
+		changed = false
+		Instrs(init, false, func(in ssa.Instruction) {
+			st, isSt := in.(*ssa.Store)
+			if !isSt {
+				return
+			}
+			base := st.Addr
+			for {
+				if fa, ok := base.(*ssa.FieldAddr); ok {
+					base = fa.X
+				} else if ia, ok := base.(*ssa.IndexAddr); ok {
+					base = ia.X
+				} else {
+					break
+				}
+			}
+			if !roots[base] {
+				return
+			}
+			v := st.Val
+			if sl, ok := v.(*ssa.Slice); ok {
+				v = sl.X
+			}
+			if al, ok := v.(*ssa.Alloc); ok && !roots[al] {
+				roots[al] = true
+				changed = true
+			}
+			if s, ok := ConstString(st.Val); ok {
+				out = append(out, s)
+			}
+		})
+		if changed {
+			out = out[:0]
+		}
+	}
+	return out, true
 }
